@@ -357,6 +357,7 @@ func (c *Collection) getViewRows(view *rosmarView, params *sgbucket.ViewParams) 
 	if err != nil {
 		return
 	}
+	defer rows.Close() // also on the error returns below: an open result set keeps its connection checked out
 	for rows.Next() {
 		var viewRow sgbucket.ViewRow
 		var jsonKey, jsonValue, jsonDoc []byte
